@@ -79,6 +79,12 @@ BandFromBottom(c, r, v, i) == Cardinality({y \in YsOf(c, r, v, v.comp[i]) : y > 
 MaxHAt(c, r, v, m, y) == Max({Nd(r, v, i).h : i \in {j \in CompNodes(c, v, m) : Nd(r, v, j).y = y}})
 
 \* expected size of input node i
+\* the same choice among the exact float64 decompositions <<sign, mhi, mlo, exp>> of the values handed to the size options
+ZeroEx == <<0, 0, 0, 0>>
+ExpSizeEx(c, r, i) == IF c.smap # <<>> /\ c.smap[i][1] = 1 THEN <<r.cmx[i][1], r.cmx[i][2]>>
+                      ELSE IF c.fixed # <<>> THEN <<r.cfx[1], r.cfx[2]>>
+                      ELSE <<ZeroEx, ZeroEx>>
+\* expected size of input node i (numerators: the size is this divided by c.sden)
 ExpSize(c, i) == IF c.smap # <<>> /\ c.smap[i][1] = 1 THEN <<c.smap[i][2], c.smap[i][3]>>
                  ELSE IF c.fixed # <<>> THEN <<c.fixed[1], c.fixed[2]>>
                  ELSE <<0, 0>>
@@ -95,8 +101,10 @@ C02_Fail(c, r, v) ==
        /\ (c.virt = 0 => VirtK(r) = {}), "OutNodes")
     \cup If(BagOf(c.edges, DOMAIN c.edges, InPair) = BagOf(r.oe, DOMAIN r.oe, OutPair), "OutEdges")
     \cup If(\A k \in RealK(r) : LET nd == r.nodes[k] IN
-               nd.i \in 1..c.n => /\ Abs(nd.w - Q * ExpSize(c, nd.i)[1]) <= Tol(r)
-                                  /\ Abs(nd.h - Q * ExpSize(c, nd.i)[2]) <= Tol(r), "OutSizes")
+               nd.i \in 1..c.n => /\ Abs(c.sden * nd.w - Q * ExpSize(c, nd.i)[1]) <= c.sden * Tol(r)
+                                  /\ Abs(c.sden * nd.h - Q * ExpSize(c, nd.i)[2]) <= c.sden * Tol(r)
+                                  \* sizes off the binary grid (sden > 1): the returned float64 IS the configured float64
+                                  /\ ("sx" \in DOMAIN nd => nd.sx = ExpSizeEx(c, r, nd.i)), "OutSizes")
     \cup If(\A k \in DOMAIN r.oe : r.oe[k].f = r.oe[k].t => r.oe[k].pts = <<>>, "LoopsUnrouted")
 C02_NonTrivial(c, r, v) ==
     \/ ~IsAcyclic(ArcSet(c.edges)) \/ LoopIdx(c.edges) # {} \/ ~IsSimple(c.edges)
